@@ -7,7 +7,9 @@ import (
 	"fmt"
 	"net/url"
 	"reflect"
+	"sort"
 	"strings"
+	"unicode/utf8"
 
 	"github.com/zitadel/saml/pkg/provider"
 )
@@ -159,11 +161,26 @@ func runC19(c *Ctx) {
 			if uerr == nil {
 				res = append([]string{"+"}, urlRecTokens(u)...)
 			}
+			// the line protocol carries decision-logic strings as UTF-8 text (DESIGN appendix A): a URL record whose
+			// percent-decoded host is not valid UTF-8 cannot be handed to the model; the implementation side is still
+			// checked against the independent reference above
+			recOK := utf8.ValidString(iss)
+			if uerr == nil {
+				recOK = recOK && utf8.ValidString(u.Scheme) && utf8.ValidString(u.Host) && utf8.ValidString(u.Fragment) && utf8.ValidString(u.RawQuery) && utf8.ValidString(u.Hostname())
+				for k := range u.Query() {
+					recOK = recOK && utf8.ValidString(k)
+				}
+			}
+			if !recOK {
+				c.hist("model", "skipped:non-utf8-url-record")
+				continue
+			}
 			ora := Ora{"urlParse": tableTokens(res, nil)}
 			line, e := fnLine("ValidateIssuer", ora, []string{tokStr(iss)}, []string{tokBool(insecure)})
 			if e != nil {
+				// the translation changed shape: no model side, but the implementation is still checked against the reference
 				c.issue(Issue{Kind: "disagreement", What: e.Error(), Site: "fn ValidateIssuer"})
-				return
+				continue
 			}
 			want := "ok -"
 			if err != nil {
@@ -189,6 +206,12 @@ func c19Dynamic(c *Ctx) {
 	dyn, ok := provider.VerifExports["dynamicIssuer"]
 	b := &batch{c: c, site: "fn dynamicIssuer"}
 	paths := []string{"", "/", "saml", "/saml", "/a/b", "a/b/"}
+	// legal but unusual configured paths: the issuer appends them verbatim (no decoding, no re-interpretation)
+	exotic := map[string]bool{"/tenants/acme%2Fprod": true, "idp%20one/saml": true, "/t/caf%C3%A9/saml": true, "//static.example.net/x": true, "/a/./b/../c": true, "/semi;colon/x": true}
+	for p := range exotic {
+		paths = append(paths, p)
+	}
+	sort.Strings(paths[6:])
 	hosts := []string{"idp.example.com", "idp.example.com:8443", "[::1]:8080", "EXAMPLE.com"}
 	hdrs := []c19Hdr{
 		{"", nil, ""},
@@ -209,6 +232,10 @@ func c19Dynamic(c *Ctx) {
 			st := newStorage()
 			prov, err := newProvider(st, cfg)
 			if err != nil {
+				if exotic[path] {
+					c.hist("exotic-path", "refused:"+path)
+					continue // refusing an unusual path at construction is within the property
+				}
 				c.issue(Issue{Kind: "violation", What: "host-derived issuer with a plain path could not be constructed: " + err.Error(), Site: "IssuerFromForwardedOrHost", Class: "constructor", Detail: map[string]interface{}{"path": path}})
 				continue
 			}
